@@ -4,7 +4,7 @@ import Driver.Util
 Line protocol for M7 (`mw …` lines). One output line per input line.
 
     mw new <fw> inst=<0|1> n=<k> eh=<c|d> ceh=<c|d> rec=<0|1> ph=<c|d> seh=<c|d> reh=<c|d>
-    mw req  down=<plain|handle> fail=<i|-> create=<ok|fail> out=<ok|err|panic> rf=<0|1> cerr=<0|1>
+    mw req  down=<plain|handle> fail=<i|-> create=<ok|fail> out=<ok|err|panic> rf=<0|1> cerr=<0|1> pre=<0|1>
     mw creq b=<batch> …same fields…        (member of a concurrent batch; same observation)
     mw closeprov
 
@@ -98,6 +98,11 @@ def parseReq (c : Cfg) (provClosed : Bool) (ws : List String) : Option Req := do
   pure { installed := c.inst, nMw := c.n, mwFail := mwFail, create := if provClosed then .provClosed else cr,
          down := d, outcome := outcome, closeErr := flag ws "cerr" "1" }
 
+/-- `pre=1`: before the request the harness creates a scope of its own from the same provider and
+puts its context under the request; it closes that scope after the request -/
+def wantsOuter (c : Cfg) (provClosed : Bool) (ws : List String) : Bool :=
+  flag ws "pre" "1" && c.inst && !provClosed
+
 def step (s : MwSt) (ws : List String) : MwSt × String :=
   match ws with
   | "new" :: fw :: rest =>
@@ -112,8 +117,13 @@ def step (s : MwSt) (ws : List String) : MwSt × String :=
       match parseReq s.cfg s.provClosed rest with
       | none => (s, "bad-op")
       | some rq =>
-        let base := s.sys.nextSid
-        let (sys', t) := s.cfg.fw.step s.sys rq
+        let pre := wantsOuter s.cfg s.provClosed rest
+        let outer := s.sys.nextSid
+        let sys0 : Sys := if pre then { s.sys with nextSid := outer + 1 } else s.sys
+        let rq := if pre then { rq with outer := some outer } else rq
+        let base := sys0.nextSid
+        let (sys', t) := s.cfg.fw.step sys0 rq
+        let sys' : Sys := if pre then { sys' with closed := outer :: sys'.closed } else sys'
         let evs := t.filterMap (showEv s.cfg base)
         let made := t.filterMap fun | .scopeCreated x => some x | _ => none
         let fresh := made.all fun x => !s.seen.contains x
